@@ -204,7 +204,7 @@ PROPS = {
         quick_scale=4, thorough_scale=4, run=native_both_profiles, level="fault_enumeration", technique="model-based runtime monitor: partner relation rebuilt from terminal reads alone (twice: from state reads of power-of-two labels and from command reads) and compared with a set-of-pairs model; exhaustive BFS over reachable matchings x operations under panic capture; f64 reference for the read semantics",
         level_text="Every reachable link state of 2..6 terminals x every connect/disconnect operation is enumerated (breadth-first) and executed on fresh terminals under panic capture, so the operation-sequence part of the quantifier is covered completely up to n=6; the value/timestamp part is sampled. Still only 'held on what was executed'.",
         rule="exhaustive BFS: for n = 2..=6 every one of the 2/4/10/26/76 matchings x every connect(i,j), i!=j, and disconnect(i) x labels written first or last, each edge replayed on fresh terminals; plus random walks of 64 steps on 2..6 terminals and random read-semantics histories of 8..20 steps (set-state, set-command, connect, disconnect) with all three reads of every terminal checked after every step; distinct = (n, matching, operation, variant) / (n, pre-matching, op) / structural shape of the history",
-        assumptions=["reads are repeated while shared borrows (Ref, never RefMut) of the partner / the terminal / both / an unrelated terminal are held and must neither panic nor change; states and commands may be delivered by follow + Terminal::update (a present followed datum becomes the own slot whatever its stamp; absent changes nothing; an error is returned and the slot is unchanged; the polling order of the two facets is not assumed); when the exact mean of two components is an f32 number the read must be that number",
+        assumptions=["reads are repeated while shared borrows (Ref, never RefMut) of the partner / the terminal / both / an unrelated terminal are held and must neither panic nor change; states and commands may be delivered by follow + Terminal::update (a present followed datum becomes the own slot whatever its stamp; absent changes nothing; an error is returned and the slot is unchanged; the polling order of the two facets is not assumed); when the exact mean of two components is an f32 number and neither the operands nor the mean are below 2*MIN_POSITIVE (halving exact) the read must be that number",
                      "connect(a,a) is never issued (outside the property)",
                      "state components finite with exponent headroom so the sum of two is finite; stamps are only compared",
                      "'latest' state/command of a terminal = the last set call; command ties may return either side",
